@@ -10,7 +10,7 @@ Obligations (input-free, kind `alignment`, decided on the real source text by as
   align.direct      AtLeast.to_b64 pickles the proposition itself and plog.from_b64 returns what pickle.loads returns
 """
 import ast
-from pyvc.engine import Harness, FrameViolation
+from pyvc.engine import Harness, FrameViolation, NotRecognised
 from pyvc.sym import Unsupported
 
 
@@ -62,6 +62,13 @@ class AlignH(Harness):
             raise Unsupported("ge_polyhedron_config.to_b64/from_b64/__new__ not found")
         packed = _pickled_expr(to_b64)
         if not isinstance(packed, ast.List):
+            # one level of indirection: pickle.dumps(name) where name = [ ... ] is assigned once in the function
+            if isinstance(packed, ast.Name):
+                assigns = [n for n in ast.walk(to_b64) if isinstance(n, ast.Assign) and len(n.targets) == 1
+                           and isinstance(n.targets[0], ast.Name) and n.targets[0].id == packed.id]
+                if len(assigns) == 1 and isinstance(assigns[0].value, ast.List):
+                    packed = assigns[0].value
+        if not isinstance(packed, ast.List):
             raise Unsupported("to_b64 does not pickle a list literal")
         names = []
         for e in packed.elts:
@@ -73,9 +80,9 @@ class AlignH(Harness):
                 names.append("<expr:%s>" % ast.unparse(e))
         params = [a.arg for a in new.args.args][1:]
         # from_b64 must splat the loaded list into the constructor
-        splat = False
+        splat = None      # None: no constructor call recognised
         for n in ast.walk(from_b64):
-            if isinstance(n, ast.Call) and isinstance(n.func, ast.Name) and n.func.id == "ge_polyhedron_config":
+            if isinstance(n, ast.Call) and isinstance(n.func, ast.Name) and n.func.id in ("ge_polyhedron_config", "cls"):
                 splat = len(n.args) == 1 and isinstance(n.args[0], ast.Starred) and not n.keywords
         # attributes attached along the class chain
         attached = set()
@@ -99,17 +106,23 @@ class AlignH(Harness):
             if isinstance(n, ast.Return) and isinstance(n.value, ast.Call) and isinstance(n.value.func, ast.Attribute) \
                     and n.value.func.attr == "loads":
                 direct_from = True
-        return {"names": names, "params": params, "splat": splat, "attached": sorted(attached), "direct": direct_to and direct_from}
+        return {"names": names, "params": params, "splat": splat, "attached": sorted(attached),
+                "direct": True if (direct_to and direct_from) else None}
 
     def ensures(self, c, st, res):
         names, params = res["names"], res["params"]
         order_ok = len(names) == len(params) and names[0] == "<self>" and all(n == p for n, p in zip(names[1:], params[1:]))
         out = []
         out.append(("align.order", True if order_ok else FrameViolation(f"packed {names} vs __new__ parameters {params}")))
-        out.append(("align.splat", True if res["splat"] else FrameViolation("from_b64 does not call ge_polyhedron_config(*loaded)")))
+        out.append(("align.splat", True if res["splat"] else
+                    (NotRecognised("from_b64: no constructor call ge_polyhedron_config(...) recognised") if res["splat"] is None
+                     else FrameViolation("from_b64 does not call ge_polyhedron_config(*loaded)"))))
         missing = [a for a in res["attached"] if a not in names]
         out.append(("align.complete", True if not missing else FrameViolation(f"attached but not packed: {missing}")))
-        out.append(("align.direct", True if res["direct"] else FrameViolation("AtLeast.to_b64 / from_b64 do not pass the object itself")))
+        # a body that is not literally `pickle.dumps(self)` / `return pickle.loads(...)` is merely not recognised: what
+        # the functions do is then decided by the stand-in (the round trip itself)
+        out.append(("align.direct", True if res["direct"] else
+                    NotRecognised("AtLeast.to_b64 / plog.from_b64 are not of the form pickle.dumps(self) / return pickle.loads(...)")))
         return out
 
 
